@@ -200,4 +200,8 @@ example :
       [ { dst := b!"/etc/a.conf", type := T.config }, { dst := b!"/usr/bin/x", type := T.file },
         { dst := b!"/etc/b.conf", type := T.configNoReplace } ]) = [b!"/etc/a.conf", b!"/etc/b.conf"] := by decide
 
+/-- the translator regenerated, on this run and from the working tree, every table this property is tied through
+    (when an extraction fails the reviewed table stands in so that the model still compiles, and this stops checking) -/
+theorem translator_tables_regenerated : Generated.extracted_G3Types = true := by decide
+
 end Nfpm.Props.C08
